@@ -35,6 +35,41 @@ pub struct Snap {
     pub rows: Vec<Row>,
 }
 
+/// The g column is a function of v (see mk_batch).
+fn g_of(v: i64) -> Option<i32> {
+    if v % 11 == 10 { None } else { Some((v % 7) as i32) }
+}
+
+/// Delete / update predicates the harness can also evaluate itself (ground truth of the table contents).
+#[derive(Clone, Debug)]
+pub enum Pred {
+    Mod(i64, i64),
+    Range(i64, i64),
+    In(Vec<i64>),
+    GEq(i32),
+    Lt(i64),
+}
+impl Pred {
+    pub fn sql(&self) -> String {
+        match self {
+            Pred::Mod(m, r) => format!("v % {m} = {r}"),
+            Pred::Range(a, b) => format!("v >= {a} AND v < {b}"),
+            Pred::In(vs) => format!("v IN ({})", vs.iter().map(|v| v.to_string()).collect::<Vec<_>>().join(", ")),
+            Pred::GEq(k) => format!("g = {k}"),
+            Pred::Lt(x) => format!("v < {x}"),
+        }
+    }
+    pub fn holds(&self, v: i64) -> bool {
+        match self {
+            Pred::Mod(m, r) => v % m == *r,
+            Pred::Range(a, b) => v >= *a && v < *b,
+            Pred::In(vs) => vs.contains(&v),
+            Pred::GEq(k) => g_of(v) == Some(*k), // NULL = k is not true
+            Pred::Lt(x) => v < *x,
+        }
+    }
+}
+
 pub struct Tbl {
     pub _dir: tempfile::TempDir,
     pub uri: String,
@@ -46,6 +81,10 @@ pub struct Tbl {
     pub hist: Vec<String>,
     /// every (rowid) ever seen live, to build "ids of deleted rows"
     pub seen_ids: BTreeSet<u64>,
+    /// ground truth kept by the harness: live v -> s
+    pub truth: std::collections::BTreeMap<i64, String>,
+    /// no compaction / update so far: the scan must list the rows by ascending v
+    pub order_preserved: bool,
 }
 
 fn arrow_schema() -> Arc<ArrowSchema> {
@@ -69,6 +108,9 @@ fn mk_batch(start_v: i64, n: usize) -> RecordBatch {
     .unwrap()
 }
 
+/// Location of the most recent panic on a worker thread (tasks are awaited one at a time).
+pub static LAST_PANIC_LOC: std::sync::Mutex<String> = std::sync::Mutex::new(String::new());
+
 /// Run a fallible async operation on its own task: Ok | Err((is_panic, message)).
 pub async fn guarded<T: Send + 'static>(fut: impl Future<Output = lance::Result<T>> + Send + 'static) -> Result<T, (bool, String)> {
     match tokio::spawn(fut).await {
@@ -78,13 +120,14 @@ pub async fn guarded<T: Send + 'static>(fut: impl Future<Output = lance::Result<
             let is_panic = e.is_panic();
             let msg = if is_panic {
                 let p = e.into_panic();
-                if let Some(s) = p.downcast_ref::<String>() {
+                let m = if let Some(s) = p.downcast_ref::<String>() {
                     s.clone()
                 } else if let Some(s) = p.downcast_ref::<&str>() {
                     s.to_string()
                 } else {
                     "panic".into()
-                }
+                };
+                format!("{} @ {}", m, LAST_PANIC_LOC.lock().map(|g| g.clone()).unwrap_or_default())
             } else {
                 "cancelled".into()
             };
@@ -113,7 +156,17 @@ impl Tbl {
         };
         let b = mk_batch(0, n);
         let ds = Dataset::write(RecordBatchIterator::new(vec![Ok(b)], arrow_schema()), &uri, Some(params)).await.unwrap();
-        Tbl { _dir: dir, uri, ds, next_v: n as i64, stable, ver, max_rows_per_file, hist: vec![format!("create n={n} max_rows_per_file={max_rows_per_file} version={ver} stable_row_ids={stable}")], seen_ids: BTreeSet::new() }
+        Tbl { _dir: dir, uri, ds, next_v: n as i64, stable, ver, max_rows_per_file, hist: vec![format!("create n={n} max_rows_per_file={max_rows_per_file} version={ver} stable_row_ids={stable}")], seen_ids: BTreeSet::new(), truth: (0..n as i64).map(|v| (v, format!("s-{v}"))).collect(), order_preserved: true }
+    }
+
+    /// fixed table: n rows v = 0..n, file format 2.0, no stable row ids
+    pub async fn create_fixed(n: usize, max_rows_per_file: usize) -> Tbl {
+        let dir = tempfile::tempdir().unwrap();
+        let uri = dir.path().join("t.lance").to_str().unwrap().to_string();
+        let ver = LanceFileVersion::V2_0;
+        let params = WriteParams { max_rows_per_file, data_storage_version: Some(ver), ..Default::default() };
+        let ds = Dataset::write(RecordBatchIterator::new(vec![Ok(mk_batch(0, n))], arrow_schema()), &uri, Some(params)).await.unwrap();
+        Tbl { _dir: dir, uri, ds, next_v: n as i64, stable: false, ver, max_rows_per_file, hist: vec![format!("create n={n} max_rows_per_file={max_rows_per_file} version=2.0 stable_row_ids=false")], seen_ids: BTreeSet::new(), truth: (0..n as i64).map(|v| (v, format!("s-{v}"))).collect(), order_preserved: true }
     }
 
     pub async fn append(&mut self, rng: &mut Rng) {
@@ -126,26 +179,29 @@ impl Tbl {
             ..Default::default()
         };
         let b = mk_batch(self.next_v, n);
+        for v in self.next_v..self.next_v + n as i64 {
+            self.truth.insert(v, format!("s-{v}"));
+        }
         self.next_v += n as i64;
         self.ds = Dataset::write(RecordBatchIterator::new(vec![Ok(b)], arrow_schema()), &self.uri, Some(params)).await.unwrap();
         self.hist.push(format!("append n={n}"));
     }
 
-    fn gen_pred(&self, rng: &mut Rng, rows: &[Row]) -> String {
+    fn gen_pred(&self, rng: &mut Rng, rows: &[Row]) -> Pred {
         let n = self.next_v.max(1);
         match rng.below(6) {
             0 => {
-                let m = rng.range(2, 5);
-                format!("v % {} = {}", m, rng.below(m))
+                let m = rng.range(2, 5) as i64;
+                Pred::Mod(m, rng.below(m as u64) as i64)
             }
             1 => {
                 let a = rng.below(n as u64) as i64;
-                format!("v >= {} AND v < {}", a, a + rng.range(1, 12) as i64)
+                Pred::Range(a, a + rng.range(1, 12) as i64)
             }
             2 => {
                 // a whole fragment's worth (or the head / tail of one)
                 if rows.is_empty() {
-                    "v < 0".into()
+                    Pred::Lt(0)
                 } else {
                     let r = rng.pick(rows);
                     let fid = r.addr >> 32;
@@ -155,30 +211,38 @@ impl Tbl {
                         1 => (vs.len() / 2).max(1),
                         _ => 1,
                     };
-                    let sel: Vec<String> = if rng.bool() { vs.iter().take(take).map(|v| v.to_string()).collect() } else { vs.iter().rev().take(take).map(|v| v.to_string()).collect() };
-                    format!("v IN ({})", sel.join(", "))
+                    Pred::In(if rng.bool() { vs.iter().take(take).copied().collect() } else { vs.iter().rev().take(take).copied().collect() })
                 }
             }
             3 => {
                 let k = rng.range(1, 6);
-                let sel: Vec<String> = (0..k).map(|_| (rng.below(n as u64) as i64).to_string()).collect();
-                format!("v IN ({})", sel.join(", "))
+                Pred::In((0..k).map(|_| rng.below(n as u64) as i64).collect())
             }
-            4 => format!("g = {}", rng.below(7)),
-            _ => format!("v < {}", rng.below(n as u64 / 2 + 1)),
+            // (not on legacy files: a NULL g reads back as 0 there, see the normalisation in check_state)
+            4 if self.ver != LanceFileVersion::Legacy => Pred::GEq(rng.below(7) as i32),
+            _ => Pred::Lt(rng.below(n as u64 / 2 + 1) as i64),
         }
     }
 
     pub async fn delete(&mut self, rng: &mut Rng, rows: &[Row]) {
-        let p = self.gen_pred(rng, rows);
+        let pred = self.gen_pred(rng, rows);
+        let p = pred.sql();
         self.ds.delete(&p).await.unwrap();
+        self.truth.retain(|v, _| !pred.holds(*v));
         self.hist.push(format!("delete {p}"));
     }
 
     pub async fn update(&mut self, rng: &mut Rng, rows: &[Row]) {
-        let p = self.gen_pred(rng, rows);
+        let pred = self.gen_pred(rng, rows);
+        let p = pred.sql();
         let res = UpdateBuilder::new(Arc::new(self.ds.clone())).update_where(&p).unwrap().set("s", "'u' || s").unwrap().build().unwrap().execute().await.unwrap();
         self.ds = (*res.new_dataset).clone();
+        for (v, s) in self.truth.iter_mut() {
+            if pred.holds(*v) {
+                *s = format!("u{s}");
+            }
+        }
+        self.order_preserved = false;
         self.hist.push(format!("update s='u'||s where {p}"));
     }
 
@@ -192,6 +256,7 @@ impl Tbl {
         let t = opts.target_rows_per_fragment;
         let th = opts.materialize_deletions_threshold;
         compact_files(&mut self.ds, opts, None).await.unwrap();
+        self.order_preserved = false;
         self.hist.push(format!("compact target_rows_per_fragment={t} materialize_deletions_threshold={th}"));
     }
 
@@ -324,6 +389,17 @@ fn expect_render(r: &Row, p: Proj, extra_addr: bool) -> String {
     }
     cols.sort_by(|a, b| a.0.cmp(&b.0));
     cols.iter().map(|(n, c)| format!("{n}={c};")).collect()
+}
+
+/// Reorder the rows of a result by ascending v and drop repeated rows (sanity mutant, see check_state).
+fn sort_batch_by_v(b: RecordBatch, p: Proj) -> RecordBatch {
+    let vs = vs_of(&b, p);
+    let mut idx: Vec<u64> = (0..vs.len() as u64).collect();
+    idx.sort_by_key(|i| vs[*i as usize]);
+    idx.dedup_by_key(|i| vs[*i as usize]);
+    let indices = UInt64Array::from(idx);
+    let cols: Vec<Arc<dyn Array>> = b.columns().iter().map(|c| arrow_select::take::take(c.as_ref(), &indices, None).unwrap()).collect();
+    RecordBatch::try_new(b.schema(), cols).unwrap()
 }
 
 /// The `v` of every returned row (rows are identified by their unique v).
@@ -548,7 +624,7 @@ fn compare_rows(b: &RecordBatch, p: Proj, extra_addr: bool, expected: &[&Row]) -
     }
 }
 
-pub async fn check_state(t: &mut Tbl, st: &mut Streams, sink: &mut Sink, rng: &mut Rng, reps: usize) {
+pub async fn check_state(t: &mut Tbl, st: &mut Streams, sink: &mut Sink, rng: &mut Rng, reps: usize, fixed: &[Vec<u64>]) {
     let snap = t.snap().await;
     let n = snap.rows.len() as u64;
     let fr_coq = frags_coq(&snap.frags);
@@ -566,6 +642,20 @@ pub async fn check_state(t: &mut Tbl, st: &mut Streams, sink: &mut Sink, rng: &m
     // direct oracle: scan addresses are distinct, live, and (without stable row ids) _rowid = _rowaddr
     {
         let distinct = by_addr.len() == snap.rows.len() && by_id.len() == snap.rows.len() && by_v.len() == snap.rows.len();
+        // ground truth: the scan lists exactly the rows the history leaves (values included), in
+        // insertion order as long as nothing was compacted or updated
+        // (documented normalisation: the legacy 0.1 file format does not keep NULLs of primitive
+        //  columns, so the nullable g column is left out of the ground-truth comparison there)
+        let legacy = t.ver == LanceFileVersion::Legacy;
+        let mut got: Vec<(i64, Option<i32>, String)> = snap.rows.iter().map(|r| (r.v, if legacy { None } else { r.g }, r.s.clone())).collect();
+        let in_order = got.windows(2).all(|w| w[0].0 < w[1].0);
+        got.sort();
+        let want: Vec<(i64, Option<i32>, String)> = t.truth.iter().map(|(v, s)| (*v, if legacy { None } else { g_of(*v) }, s.clone())).collect();
+        if got == want && (in_order || !t.order_preserved) {
+            sink.oracle_ok();
+        } else {
+            sink.oracle_fail(None, "the ordered scan does not list exactly the rows the history leaves (or not in insertion order)", json!({"history": hist, "fragments": fr_json, "scan_v": snap.rows.iter().map(|r| r.v).collect::<Vec<_>>(), "expected_v": t.truth.keys().collect::<Vec<_>>()}));
+        }
         let ids_ok = t.stable || snap.rows.iter().all(|r| r.rowid == r.addr);
         let cnt = t.ds.count_rows(None).await.unwrap() as u64;
         if distinct && ids_ok && cnt == n {
@@ -575,9 +665,12 @@ pub async fn check_state(t: &mut Tbl, st: &mut Streams, sink: &mut Sink, rng: &m
         }
     }
 
+    let mut requests: Vec<(Vec<u64>, &'static str)> = fixed.iter().map(|o| (o.clone(), "fixed")).collect();
     for _ in 0..reps {
+        requests.push(gen_offsets(rng, &snap));
+    }
+    for (offs, kind) in requests {
         // ================= by offset =================
-        let (offs, kind) = gen_offsets(rng, &snap);
         let all_in = offs.iter().all(|o| *o < n);
         sink.count(&format!("offsets:{kind}"));
         let inp = format!("({}, {})", fr_coq, coq::nlist(offs.iter()));
@@ -605,6 +698,9 @@ pub async fn check_state(t: &mut Tbl, st: &mut Streams, sink: &mut Sink, rng: &m
                 ds.take(&o2, pr).await
             })
             .await;
+            // sanity mutant (only with `--sanity take-no-remap`): behave as if the re-mapping path of
+            // do_take_rows returned the concatenated per-fragment batches without restoring request order
+            let r = if crate::sanity() == "take-no-remap" { r.map(|b| sort_batch_by_v(b, p)) } else { r };
             let expected: Vec<&Row> = offs.iter().filter(|o| **o < n).map(|o| &snap.rows[*o as usize]).collect();
             let out = r.as_ref().map(|b| vs_of(b, p).iter().map(|v| by_v.get(v).map(|r| r.addr).unwrap_or(0)).collect::<Vec<u64>>()).map_err(|e| e.clone());
             let case = json!({"history": hist, "fragments": fr_json, "offsets": offs, "kind": kind, "projection": format!("{:?}", p), "impl": format!("{:?}", out), "expected_v": expected.iter().map(|r| r.v).collect::<Vec<_>>()});
@@ -717,10 +813,14 @@ pub async fn check_state(t: &mut Tbl, st: &mut Streams, sink: &mut Sink, rng: &m
                 (a, (a + rng.range(1, 9)).min(n))
             })
             .collect();
-        let oob = rng.chance(1, 6);
+        // at most one range reaching past the end, and only as the last one (the order in which
+        // `buffered` surfaces an error and a panic of two different ranges is not deterministic)
+        let oob = rng.chance(1, 5);
         if oob {
-            ranges.push((n - 1, n + 1));
+            ranges.push(*rng.pick(&[(n - 1, n + 1), (n - 1, n + 1), (n, n + 1), (n, n + 2), (n - 1, n + 2)]));
         }
+        // offsets a..b contain an out-of-range offset that is not the last one  <=>  max(a, n) < b - 1
+        let scan_class = if ranges.iter().any(|(a, b)| *b >= 1 && (*a).max(n) < *b - 1) { Some("oob_offset_not_last") } else { None };
         let ds = t.ds.clone();
         let r2 = ranges.clone();
         let readahead = rng.range(1, 4) as usize;
@@ -750,7 +850,8 @@ pub async fn check_state(t: &mut Tbl, st: &mut Streams, sink: &mut Sink, rng: &m
                 }
             }
             Err((false, _)) if oob => sink.oracle_ok(),
-            Err((pn, m)) => sink.oracle_fail(None, &format!("take_scan {}: {m}", if *pn { "panicked" } else { "failed" }), case.clone()),
+            Err((true, m)) => sink.oracle_fail(scan_class, &format!("take_scan panicked: {m}"), case.clone()),
+            Err((false, m)) => sink.oracle_fail(None, &format!("take_scan failed on in-range ranges: {m}"), case.clone()),
         }
         let o = match &out {
             Ok(bs) => format!("(Ok {})", coq::list(bs.iter().map(|b| coq::nlist(b.iter())))),
@@ -781,6 +882,8 @@ pub fn run(args: &Args, sink: &mut Sink, rng: &mut Rng) {
     std::panic::set_hook(Box::new(|info| {
         if std::thread::current().name() == Some("main") {
             eprintln!("hx_c15 harness panic: {info}");
+        } else if let (Some(l), Ok(mut g)) = (info.location(), LAST_PANIC_LOC.lock()) {
+            *g = format!("{}:{}", l.file().rsplit("/rust/").next().unwrap_or(l.file()), l.line());
         }
     }));
     let mut st = Streams {
@@ -792,15 +895,26 @@ pub fn run(args: &Args, sink: &mut Sink, rng: &mut Rng) {
         take_scan: Stream::new("take_scan", REQ, "chk_take_scan", "frags_in * list (N * N)", "outcome (list (list N))"),
     };
     for s in [&mut st.scan, &mut st.offs2addr, &mut st.take_off, &mut st.take_addr, &mut st.take_id, &mut st.take_scan] {
-        s.shard = 200;
+        s.shard = 400;
     }
     let n_tables = args.vol(40, 400);
     let reps = args.vol(6, 10);
     rt.block_on(async {
+        // fixed regression inputs first: 3-row single-fragment table and a 2-fragment table with deletions
+        {
+            let mut frng = Rng::new(7);
+            let mut t = Tbl::create_fixed(3, 1000).await;
+            check_state(&mut t, &mut st, sink, &mut frng, 2, &[vec![3, 0], vec![0, 3], vec![3], vec![3, 3], vec![2, 1, 1, 0], vec![0, 1, 2]]).await;
+            let mut t = Tbl::create_fixed(12, 6).await;
+            t.ds.delete("v IN (0, 1, 2, 7, 11)").await.unwrap();
+            t.truth.retain(|v, _| ![0i64, 1, 2, 7, 11].contains(v));
+            t.hist.push("delete v IN (0, 1, 2, 7, 11)".into());
+            check_state(&mut t, &mut st, sink, &mut frng, 2, &[vec![6, 0, 3, 3, 2], vec![2, 3], vec![7, 0], vec![0, 7], vec![9, 1]]).await;
+        }
         for ti in 0..n_tables {
             let stable = ti % 3 == 2;
             let mut t = Tbl::create(rng, stable).await;
-            check_state(&mut t, &mut st, sink, rng, reps).await;
+            check_state(&mut t, &mut st, sink, rng, reps, &[]).await;
             let steps = rng.range(1, 6);
             for _ in 0..steps {
                 let snap_rows = t.snap().await.rows;
@@ -818,7 +932,7 @@ pub fn run(args: &Args, sink: &mut Sink, rng: &mut Rng) {
                         }
                     }
                 }
-                check_state(&mut t, &mut st, sink, rng, reps).await;
+                check_state(&mut t, &mut st, sink, rng, reps, &[]).await;
             }
             sink.count(if stable { "tables:stable-row-ids" } else { "tables:address-row-ids" });
         }
